@@ -42,6 +42,7 @@ type c16KBState struct {
 	dirty  bool              // a build was rejected here
 	exists bool
 	stored int // checkpoint (store without load): 0 none, 1 taken and nothing changed since, 2 taken and the knowledge base changed afterwards
+	inst   int // an instance was created and executed in the middle of the history: 0 never, 1 and nothing changed since, 2 and the knowledge base changed afterwards
 }
 
 type c16State struct{ kbs []c16KBState }
@@ -49,7 +50,7 @@ type c16State struct{ kbs []c16KBState }
 func (s *c16State) clone() *c16State {
 	c := &c16State{}
 	for _, k := range s.kbs {
-		n := c16KBState{active: map[string]string{}, dirty: k.dirty, exists: k.exists, stored: k.stored}
+		n := c16KBState{active: map[string]string{}, dirty: k.dirty, exists: k.exists, stored: k.stored, inst: k.inst}
 		for a, b := range k.active {
 			n.active[a] = b
 		}
@@ -66,7 +67,7 @@ func (s *c16State) key() string {
 			a = append(a, n+"="+t)
 		}
 		sort.Strings(a)
-		parts = append(parts, fmt.Sprintf("%v/%v/%v/%s", k.exists, k.dirty, k.stored, strings.Join(a, ",")))
+		parts = append(parts, fmt.Sprintf("%v/%v/%v/%v/%s", k.exists, k.dirty, k.stored, k.inst, strings.Join(a, ",")))
 	}
 	return strings.Join(parts, " | ")
 }
@@ -89,16 +90,25 @@ func (s *c16State) apply(o c16Op) (ns *c16State, wantErr bool) {
 			if k.stored == 1 {
 				k.stored = 2
 			}
+			if k.inst == 1 {
+				k.inst = 2
+			}
 		}
 	case "removelib":
 		if _, ok := k.active[o.arg]; ok && k.stored == 1 {
 			k.stored = 2
 		}
+		if _, ok := k.active[o.arg]; ok && k.inst == 1 {
+			k.inst = 2
+		}
 		delete(k.active, o.arg)
 	case "store":
 		k.stored = 1
+	case "instantiate":
+		k.inst = 1
 	case "storeload":
 		k.stored = 0 // the library entry is replaced by the loaded object
+		k.inst = 0
 	}
 	return
 }
@@ -190,6 +200,12 @@ func c16Replay(keys []c16KBKey, hist []c16Op) (*ast.KnowledgeLibrary, []error, e
 			if err := lib.StoreKnowledgeBaseToWriter(&buf, kk.name, kk.ver); err != nil {
 				return lib, errs, fmt.Errorf("store: %w", err)
 			}
+		case "instantiate":
+			// an instance is created and used in the MIDDLE of the history (whatever the library caches
+			// on that occasion is in place for the operations that follow)
+			if inst, err := lib.NewKnowledgeBaseInstance(kk.name, kk.ver); err == nil {
+				c16Observe(inst)
+			}
 		case "storeload":
 			var buf bytes.Buffer
 			if err := lib.StoreKnowledgeBaseToWriter(&buf, kk.name, kk.ver); err != nil {
@@ -204,7 +220,7 @@ func c16Replay(keys []c16KBKey, hist []c16Op) (*ast.KnowledgeLibrary, []error, e
 }
 
 func C16(rep *ev.Reporter, tier string) {
-	bud := NewBudget(55 * time.Second)
+	bud := NewBudget(150 * time.Second)
 	depth := 4
 	if tier == "thorough" {
 		bud = NewBudget(9 * time.Minute)
@@ -240,6 +256,7 @@ func C16(rep *ev.Reporter, tier string) {
 			}
 			ops = append(ops, c16Op{"storeload", kb, ""})
 			ops = append(ops, c16Op{"store", kb, ""}) // checkpoint: store without loading
+			ops = append(ops, c16Op{"instantiate", kb, ""})
 		}
 		init := &c16State{}
 		for range sp.keys {
@@ -261,7 +278,7 @@ func C16(rep *ev.Reporter, tier string) {
 			for _, n := range frontier {
 				for _, o := range ops {
 					k := n.st.kbs[o.kb]
-					if (o.kind == "storeload" || o.kind == "removelib" || o.kind == "store") && !k.exists {
+					if (o.kind == "storeload" || o.kind == "removelib" || o.kind == "store" || o.kind == "instantiate") && !k.exists {
 						continue
 					}
 					jobs = append(jobs, job{n, o})
@@ -427,7 +444,7 @@ func C16(rep *ev.Reporter, tier string) {
 		rep.Exhaustive = false
 		rep.Coverage["caps_hit"] = "time budget"
 	}
-	rep.Coverage["rule"] = fmt.Sprintf("breadth-first search over operation histories (depth <= %d) on one library with two knowledge bases, in two spaces: (A,1)/(A,2) and the separator-collision pair (a:b,c)/(a,b:c). Operations per knowledge base: build X1, build X2 (same name, other body), build Y, build 'X1 X2' in one resource, library-level RemoveRuleEntry(X|Y), store + load with overwrite, store alone (checkpoint). States are deduplicated on the MODEL state (active rules per knowledge base + whether a build was rejected there + whether a checkpoint store was taken and whether the knowledge base changed after it); every transition replays its history on a fresh library with the real builder/serializer. After every step: build error iff the model says duplicate; for every knowledge base a fresh instance can be created and its FetchMatchingRules + Execute observation equals that of the model's active rule texts built alone; instance-level removal changes only that instance; a rule removed from the running instance in a listener callback (cycle 1 or 2) is neither evaluated nor fired from then on. states/transitions are those of the library model; every transition is non-trivial (it is validated against the implementation).", depth)
+	rep.Coverage["rule"] = fmt.Sprintf("breadth-first search over operation histories (depth <= %d) on one library with two knowledge bases, in two spaces: (A,1)/(A,2) and the separator-collision pair (a:b,c)/(a,b:c). Operations per knowledge base: build X1, build X2 (same name, other body), build Y, build 'X1 X2' in one resource, library-level RemoveRuleEntry(X|Y), store + load with overwrite, store alone (checkpoint), create + execute an instance in the middle of the history. States are deduplicated on the MODEL state (active rules per knowledge base + whether a build was rejected there + whether a checkpoint store was taken / an instance was created, and whether the knowledge base changed after it); every transition replays its history on a fresh library with the real builder/serializer. After every step: build error iff the model says duplicate; for every knowledge base a fresh instance can be created and its FetchMatchingRules + Execute observation equals that of the model's active rule texts built alone; instance-level removal changes only that instance; a rule removed from the running instance in a listener callback (cycle 1 or 2) is neither evaluated nor fired from then on. states/transitions are those of the library model; every transition is non-trivial (it is validated against the implementation).", depth)
 }
 
 // c16HistClass names the operation kinds that matter for a signature: the last op and whether a
